@@ -107,6 +107,10 @@ def generate(rng, opts):
         # a post-checkout hook configured in the repository (git-lfs installs one): it runs at the end of
         # `git worktree add`, whose exit status is the hook's
         "post_checkout_hook": rng.choice([None, None, None, None, "ok", "fails"]),
+        # a remote-tracking branch (what `griffe check --against origin/main` uses) and the user's
+        # branch.autoSetupMerge setting: `git worktree add -b` then writes upstream configuration for the new branch
+        "remote_tracking": rng.random() < 0.3,
+        "auto_setup_merge": rng.choice([None, None, None, "always", "false"]),
         "dirty": rng.sample(["modified", "staged", "untracked", "ignored"], rng.choice([0, 0, 1, 2, 3])),
         "user_worktree": rng.choice([None, None, None, None, "live", "live", "live", "stale"]) if all_branches else None,
     }
@@ -114,6 +118,8 @@ def generate(rng, opts):
         state["user_worktree"] = "live"
     # incl. Git's shorthands: `@` is HEAD; they normalise to an empty temporary name
     refs = all_tags + all_branches + ["HEAD", "main", "HEAD~1", "@", "@^", "HEAD^"]
+    if state["remote_tracking"]:
+        refs += ["origin/main", "origin/main"]
     ops = []
     for _ in range(rng.choice([1, 1, 2, 2, 3])):
         r = rng.random()
@@ -229,6 +235,12 @@ def build_repo(root, world):
     if "ignored" in st["dirty"]:
         with open(os.path.join(repo, "debug.log"), "w") as fh:
             fh.write("l\n")
+    if st.get("remote_tracking"):
+        _git(repo, "config", "remote.origin.url", os.path.join(root, "no-such-remote.git"))
+        _git(repo, "config", "remote.origin.fetch", "+refs/heads/*:refs/remotes/origin/*")
+        _git(repo, "update-ref", "refs/remotes/origin/main", "refs/heads/main")
+    if st.get("auto_setup_merge"):
+        _git(repo, "config", "branch.autoSetupMerge", st["auto_setup_merge"])
     if st.get("post_checkout_hook"):
         hook = os.path.join(repo, ".git", "hooks", "post-checkout")
         os.makedirs(os.path.dirname(hook), exist_ok=True)
@@ -528,7 +540,7 @@ def _ref_commit(world, ref):
         branches = [(i, b) for i, c in enumerate(commits) for b in c["branches"]]
         if branches:
             head = branches[0][0]
-    if ref in ("main",):
+    if ref in ("main", "origin/main"):
         return last
     if ref in ("HEAD", "@"):
         return head
@@ -769,7 +781,7 @@ def shrink_candidates(plan):
             yield {**plan, "ops": ops[:i] + [{**op, "api": "check"}] + ops[i + 1 :]}
     world = plan["world"]
     st = world["state"]
-    for key, simple in (("collide_branch", False), ("detached", False), ("user_worktree", None), ("repo_dirname", "repo"), ("user_worktree_dirname", "user-wt"), ("work_in_linked_worktree", False), ("tmp_symlinked", False), ("post_checkout_hook", None)):
+    for key, simple in (("collide_branch", False), ("detached", False), ("user_worktree", None), ("repo_dirname", "repo"), ("user_worktree_dirname", "user-wt"), ("work_in_linked_worktree", False), ("tmp_symlinked", False), ("post_checkout_hook", None), ("remote_tracking", False), ("auto_setup_merge", None)):
         if st[key] != simple:
             yield {**plan, "world": {**world, "state": {**st, key: simple}}}
     for red in core.list_reductions(st["dirty"]):
